@@ -186,32 +186,33 @@ private theorem makeAssertionResponse_refines (o : Ora) (resp : provider_Respons
     identifiers are the ones `NewID()` returned at the two call sites, the instants are `time.Now()` and
     `time.Now().Add(expiration)` in the configured layout -/
 theorem C03_success_message_is_generated (o : Ora) (i : Callback.In) (rec : Callback.Rec) (aud fmt : String) (exp : Int)
-    (attrs : provider_Attributes)
+    (attrs : provider_Attributes) (resp : provider_Response)
+    (hacs : resp.AcsUrl = rec.acs) (hreq : resp.RequestID = rec.reqID) (hiss : resp.Issuer = i.issuer) (haud : resp.Audience = aud)
+    (hsend : resp.SendIP = "")
     (hid0 : i.ids 0 = o.newID "Response_makeAssertionResponse" 0) (hid1 : i.ids 1 = o.newID "makeAssertion" 0)
     (hii : i.issueInstant = o.m_Format o.now fmt) (hun : i.untilInstant = o.m_Format (o.now + exp) fmt) :
-    ∃ r, Response_makeSuccessfulResponse o
-        (some { AcsUrl := rec.acs, RequestID := rec.reqID, Issuer := i.issuer, Audience := aud, SendIP := "" }) (some attrs) fmt exp = .ok (some r) ∧
+    ∃ r, Response_makeSuccessfulResponse o (some resp) (some attrs) fmt exp = .ok (some r) ∧
       Builders.msgOf r (Builders.assertionOf r.Assertion) =
         { Callback.mkResponse (i.ids 0) rec.reqID rec.acs i.issueInstant statusSuccess "" i.issuer with
           assertion := some (Callback.mkAssertion (i.ids 1) rec.reqID rec.acs i.issueInstant i.untilInstant i.issuer
             (some { Format := "urn:oasis:names:tc:SAML:1.1:nameid-format:emailAddress", Text := attrs.username }) (specAttrs attrs) aud) } := by
-  obtain ⟨r, hr, hm⟩ := makeAssertionResponse_refines o
-    { AcsUrl := rec.acs, RequestID := rec.reqID, Issuer := i.issuer, Audience := aud, SendIP := "" }
-    (o.m_Format o.now fmt) (o.m_Format (o.now + exp) fmt) attrs rfl
+  obtain ⟨r, hr, hm⟩ := makeAssertionResponse_refines o resp (o.m_Format o.now fmt) (o.m_Format (o.now + exp) fmt) attrs hsend
   refine ⟨r, ?_, ?_⟩
-  · simp [Response_makeSuccessfulResponse, Response_makeSuccessfulResponse.body, Ctl.toRes, hr, Res.isPanic, Res.get]
-  · rw [hm, hid0, hid1, hii, hun]
+  · simp only [Response_makeSuccessfulResponse, Response_makeSuccessfulResponse.body, Ctl.toRes, hr, Res.isPanic, Res.get]
+    simp
+  · rw [hm, hid0, hid1, hii, hun, hacs, hreq, hiss, haud]
 
 /-- the failed responses of the callback are the generated `makeFailedResponse` -/
-theorem C03_failed_message_is_generated (o : Ora) (i : Callback.In) (reqID acs status message fmt : String)
+theorem C03_failed_message_is_generated (o : Ora) (i : Callback.In) (reqID acs status message fmt : String) (resp : provider_Response)
+    (hacs : resp.AcsUrl = acs) (hreq : resp.RequestID = reqID) (hiss : resp.Issuer = i.issuer)
     (hid0 : i.ids 0 = o.newID "Response_makeFailedResponse" 0) (hii : i.issueInstant = o.m_Format o.now fmt) :
-    ∃ r, Response_makeFailedResponse o (some { AcsUrl := acs, RequestID := reqID, Issuer := i.issuer, Audience := "", SendIP := "" }) status message fmt = .ok (some r) ∧
+    ∃ r, Response_makeFailedResponse o (some resp) status message fmt = .ok (some r) ∧
       Builders.msgOf r none = Callback.failedMsg i reqID acs status message := by
-  obtain ⟨r, hr, hm⟩ := Builders.makeFailedResponse_refines o { AcsUrl := acs, RequestID := reqID, Issuer := i.issuer, Audience := "", SendIP := "" } status message fmt
-  exact ⟨r, hr, by rw [hm, Callback.failedMsg, hid0, hii]⟩
+  obtain ⟨r, hr, hm⟩ := Builders.makeFailedResponse_refines o resp status message fmt
+  exact ⟨r, hr, by rw [hm, Callback.failedMsg, hid0, hii, hacs, hreq, hiss]⟩
 
 theorem C03_source_current : Consts.current = true ∧
-    FactsUtil.sameHashes ["provider.IdentityProvider.callbackHandleFunc", "provider.IdentityProvider.loginResponse",
+    FactsUtil.sameHashes ["provider.IdentityProvider.callbackHandleFunc",
       
       "provider.NewID", "provider.Response.sendBackResponse"] = true := ⟨by decide, by decide⟩
 
